@@ -140,7 +140,7 @@ def zone_local_to_instant(name, y, m, d, h, mi, s):
 
 
 def subsecond_quirk(zone, ns, got_off):
-    """F18: jiff 0.2.5 looks a negative instant with a fraction up at the *next* whole second"""
+    """F22: jiff 0.2.5 looks a negative instant with a fraction up at the *next* whole second"""
     name = zone.get("name") if isinstance(zone, dict) else None
     if not name or ns >= 0 or ns % NS == 0:
         return False
@@ -857,7 +857,7 @@ class C16(PropBase):
                         return {"sig": "ts-instant", "what": "timestamp %r (cfg %s): instant %s, expected %s" % (t, case["cfg"], x["ns"], e[1])}
                     if int(x["off"]) != e[2]:
                         if subsecond_quirk(case["cfg"].get("tz") or {}, e[1], int(x["off"])):
-                            return {"sig": "F18:jiff-subsecond-offset", "what": "timestamp %r (cfg %s): offset %s, expected %s (instant is right)" % (t, case["cfg"], x["off"], e[2])}
+                            return {"sig": "F22:jiff-subsecond-offset", "what": "timestamp %r (cfg %s): offset %s, expected %s (instant is right)" % (t, case["cfg"], x["off"], e[2])}
                         return {"sig": "ts-offset", "what": "timestamp %r (cfg %s): offset %s, expected %s" % (t, case["cfg"], x["off"], e[2])}
                     seen.add(int(x["ns"]))
             if case.get("same") and len(seen) > 1:
@@ -877,7 +877,7 @@ class C16(PropBase):
                 e = display(ns, oo)
                 if int(v["own_off"]) != oo:
                     if subsecond_quirk(own, ns, int(v["own_off"])):
-                        return {"sig": "F18:jiff-subsecond-offset", "what": "instant %s in its own zone %s at offset %s, expected %s" % (ns, own, v["own_off"], oo)}
+                        return {"sig": "F22:jiff-subsecond-offset", "what": "instant %s in its own zone %s at offset %s, expected %s" % (ns, own, v["own_off"], oo)}
                     return {"sig": "fmt-own-offset", "what": "own offset %s, expected %s" % (v["own_off"], oo)}
                 for k in ("rfc3339", "seconds_tz", "full_tz"):
                     if v[k] != e[k]:
@@ -894,7 +894,7 @@ class C16(PropBase):
                     continue
                 if int(x["rtz_off"]) != ro:
                     if subsecond_quirk(z, ns, int(x["rtz_off"])):
-                        return {"sig": "F18:jiff-subsecond-offset", "what": "instant %s shown in %s at offset %s (%r), expected %s (%r)" % (ns, z, x["rtz_off"], x["full"], ro, display(ns, ro)["full"])}
+                        return {"sig": "F22:jiff-subsecond-offset", "what": "instant %s shown in %s at offset %s (%r), expected %s (%r)" % (ns, z, x["rtz_off"], x["full"], ro, display(ns, ro)["full"])}
                     return {"sig": "fmt-zone-offset", "what": "offset of %s at %s: %s, expected %s" % (z, ns, x["rtz_off"], ro)}
                 e = display(ns, ro)
                 for k in ("seconds", "full", "date", "month", "year", "week", "week_date"):
